@@ -11,7 +11,7 @@ use super::c01::{draw_small_order, draw_start, draw_steps, model_apply, run_hist
 use super::draw_sched;
 use crate::core::{Lane, Scenario, Stats, Tier, Violation};
 use crate::dynrep::{construct, start_supported, DynG, ReprKind, Start, Step, ALL_KINDS};
-use crate::exec::Conf;
+use crate::exec::{with_cpu, Conf};
 use graaf::IsComplete;
 use serde::{Deserialize, Serialize};
 use std::cmp::Ordering;
@@ -165,6 +165,14 @@ fn detour(kind: ReprKind, v: &std::collections::BTreeSet<usize>, len: usize, see
     steps
 }
 
+/// `==`, `cmp`, `hash` and `clone_from` are library code like any other: whether they start workers is a
+/// property of the tree under test. Every comparison of this lane is therefore evaluated at each of these
+/// simulated CPU counts (inside the ambient execution, which schedules the workers); `true` if `f` holds
+/// at any of them.
+fn at_any_cpu(mut f: impl FnMut() -> bool) -> bool {
+    [Some(1), Some(2), Some(3), Some(7), Some(16), None].into_iter().any(|c| with_cpu(c, || f()))
+}
+
 struct Built {
     g: DynG,
     model: WDg,
@@ -244,8 +252,22 @@ fn neighbour_of(kind: ReprKind, m: &WDg, how: &str, seed: u64) -> WDg {
     let mut n = m.clone();
     let toggle_arc = |n: &mut WDg, rng: &mut Rng| {
         if ids.len() >= 2 {
-            let u = *rng.pick(&ids);
-            let mut v = *rng.pick(&ids);
+            // in a giant the differing arc sits at a structured place (first / last / last but one / middle
+            // row or column) as often as anywhere
+            let place = |rng: &mut Rng| -> usize {
+                if ids.len() <= 64 {
+                    return *rng.pick(&ids);
+                }
+                match rng.below(8) {
+                    0 => ids[0],
+                    1 | 2 => ids[ids.len() - 1],
+                    3 => ids[ids.len() - 2],
+                    4 => ids[ids.len() / 2],
+                    _ => *rng.pick(&ids),
+                }
+            };
+            let u = place(rng);
+            let mut v = place(rng);
             if v == u {
                 v = ids[(ids.binary_search(&u).unwrap() + 1) % ids.len()];
             }
@@ -329,6 +351,44 @@ impl Lane for C20 {
         let after_clone_original = valid_only(draw_steps(rng, kind, n, l1), kind.fixed_order());
         let after_clone_copy = valid_only(draw_steps(rng, kind, n, l2), kind.fixed_order());
         let confs = (0..3).map(|_| Conf { cpu: draw_cpu(rng, n), sched: draw_sched(rng, n), trace: None }).collect();
+        if rng.chance(1, 400) {
+            // giant and sparse: hand-written ==, cmp, hash and clone_from take other paths above size
+            // thresholds (rows per worker, blocks per row); the digraphs differ at structured places
+            let n = super::c17::draw_giant(rng, 2100);
+            let corner_steps = |rng: &mut Rng, len: usize| -> Vec<Step> {
+                let mut steps = Vec::new();
+                for _ in 0..len {
+                    let pick = |rng: &mut Rng| match rng.below(6) {
+                        0 => 0,
+                        1 => n - 1,
+                        2 => n - 2,
+                        3 => n / 2,
+                        _ => rng.below(n),
+                    };
+                    let (u, mut v) = (pick(rng), pick(rng));
+                    if u == v {
+                        v = (v + 1) % n;
+                    }
+                    steps.push(if kind.weighted() {
+                        Step::AddW { u, v, w: rng.below(50) as i64 }
+                    } else if rng.chance(1, 5) {
+                        Step::Remove { u, v }
+                    } else {
+                        Step::Add { u, v }
+                    });
+                }
+                steps
+            };
+            let len = rng.range(2, 10);
+            let steps_a = corner_steps(rng, len);
+            let light = ["empty", "gen:empty", "gen:path", "gen:star", "gen:circuit"];
+            let route_b = Route { start: (*rng.pick(&light)).into(), seed: rng.next_u64(), detour: rng.range(0, 6) };
+            let route_c = Route { start: (*rng.pick(&light[..2])).into(), seed: rng.next_u64(), detour: rng.range(0, 4) };
+            let neighbour = (*rng.pick(&["arc", "arc", "arc", "weight", "order"])).to_string();
+            let (l1, l2) = (rng.range(1, 4), rng.range(1, 4));
+            let (after_clone_original, after_clone_copy) = (corner_steps(rng, l1), corner_steps(rng, l2));
+            return Scenario { body: Body { kind, start_a: Start::Empty { order: n }, steps_a, route_b, route_c, neighbour, after_clone_original, after_clone_copy }, confs };
+        }
         Scenario { body: Body { kind, start_a, steps_a, route_b, route_c, neighbour, after_clone_original, after_clone_copy }, confs }
     }
 
@@ -367,18 +427,21 @@ impl Lane for C20 {
             return vs;
         }
         let target = ma.clone();
+        if target.v.len() > 300 {
+            st.bump("probe/giant_digraphs_compared");
+        }
         // history B: another route to the same abstract digraph
         let Some(bb) = follow_route(kind, &b.route_b, &target, &sc.confs[1], st, &mut vs, "history B: ") else { return vs };
         let (gb, _mb) = (bb.g, bb.model);
         let eq_name = format!("{rname}::eq");
         let desc = || format!("A = {:?} + {} steps, B = route {:?}; both show V={:?} A={:?}", b.start_a.label(), steps_a.len(), b.route_b.start, target.v, target.a);
-        if ga != gb || gb != ga {
+        if at_any_cpu(|| ga != gb || gb != ga) {
             vs.push(Violation::new("equal_digraphs_compare_unequal", &eq_name, "same_abstract_digraph", desc()));
         }
-        if ga.cmp(&gb) != Ordering::Equal || gb.cmp(&ga) != Ordering::Equal || ga.partial_cmp(&gb) != Some(Ordering::Equal) {
+        if at_any_cpu(|| ga.cmp(&gb) != Ordering::Equal || gb.cmp(&ga) != Ordering::Equal || ga.partial_cmp(&gb) != Some(Ordering::Equal)) {
             vs.push(Violation::new("equal_digraphs_not_ordering_equal", &format!("{rname}::cmp"), "same_abstract_digraph", desc()));
         }
-        if ga.hash64() != gb.hash64() {
+        if at_any_cpu(|| ga.hash64() != gb.hash64()) {
             vs.push(Violation::new("equal_digraphs_hash_differently", &format!("{rname}::hash"), "same_abstract_digraph", desc()));
         }
         st.bump("probe/two_histories_same_digraph_compared");
@@ -404,7 +467,7 @@ impl Lane for C20 {
                 let gc = cc.g;
                 st.bump(&format!("probe/neighbour_compared/{how}"));
                 let d2 = || format!("A shows V={:?} A={:?}; C shows V={:?} A={:?}", target.v, target.a, nb.v, nb.a);
-                if ga == gc || gc == ga {
+                if at_any_cpu(|| ga == gc || gc == ga) {
                     vs.push(Violation::new("different_digraphs_compare_equal", &eq_name, &format!("neighbour_{how}"), d2()));
                 }
                 // (the property speaks about == for different digraphs, and about cmp only for equal ones:
@@ -426,7 +489,7 @@ impl Lane for C20 {
                     }
                 }
                 let mut dense = WDg::empty(n + 1);
-                for u in 0..=n {
+                for u in 0..=(if n > 300 { 0 } else { n }) {
                     for w in 0..=n {
                         if u != w && (u + 2 * w) % 3 != 0 {
                             let _ = dense.a.insert((u, w), if kind.weighted() { 9 } else { 0 });
@@ -441,7 +504,7 @@ impl Lane for C20 {
                 st.sequential_checks += 1;
                 dst.clone_from(&ga);
                 let same_obs = dst.observe() == ga.observe();
-                if dst != ga || !same_obs || dst.hash64() != ga.hash64() || dst.cmp(&ga) != Ordering::Equal {
+                if !same_obs || at_any_cpu(|| dst != ga || dst.hash64() != ga.hash64() || dst.cmp(&ga) != Ordering::Equal) {
                     vs.push(Violation::new("clone_from_differs", &format!("{rname}::clone_from"), "",
                         format!("clone_from into {what}: == {}, same observation {same_obs}, same hash {}; source shows V={:?} A={:?}", dst == ga, dst.hash64() == ga.hash64(), target.v, target.a)));
                     return vs;
@@ -451,7 +514,7 @@ impl Lane for C20 {
         }
         // clone: equal at the fork, independent afterwards
         let mut copy = ga.clone();
-        if copy != ga || copy.hash64() != ga.hash64() || copy.observe() != ga.observe() {
+        if copy.observe() != ga.observe() || at_any_cpu(|| copy != ga || copy.hash64() != ga.hash64()) {
             vs.push(Violation::new("clone_differs", &format!("{rname}::clone"), "", desc()));
             return vs;
         }
